@@ -1,5 +1,5 @@
 (* Model.C03Run: executable checkers used by Run/cases_C03.v (no proofs). *)
-From DV Require Import Base.Prelude Model.Persist Model.Heads Model.MapLog Model.C04Run.
+From DV Require Import Base.Prelude Model.Persist Model.Heads Model.MapLog Model.MapLogV Model.C04Run.
 Local Open Scope N_scope.
 
 Inductive c03case :=
@@ -19,6 +19,11 @@ Inductive c03case :=
 (* labelmap mutations of one version, in segments separated by the restarts so far; the split
    records shown before and after the latest restart *)
 | CMapLog (segs : list (list mapop)) (before after : list (N * N * N * N))
+(* labelmap mutations at ANY versions, in the order they were made, in segments separated by the
+   restarts so far; the ancestry (itself first) of every version of the DAG; per version the split
+   records GET supervoxel-splits shows (its whole ancestry) before and after the latest restart *)
+| CMapLogV (ancs : list (N * list N)) (segs : list (list (N * mapop)))
+           (obs : list (N * list (N * N * N * N) * list (N * N * N * N)))
 (* GET nextlabel before and after *)
 | CNext (before after : N)
 (* records appended to a log by one engine instance, read by a re-opened one: how many were
@@ -110,6 +115,13 @@ Definition model_ok (c : c03case) : bool :=
       let '(s, lg) := seg_run tw segs in
       list_eqb quad_eqb (mp_splits s) before && list_eqb quad_eqb (mp_splits (replay mp_empty lg)) after in
     check true || check false
+  | CMapLogV ancs segs obs =>
+    let check := fun tw =>
+      let '(st, lg) := vseg_go tw ancs ([], []) segs in
+      forallb (fun x : N * list (N * N * N * N) * list (N * N * N * N) => let '(v, b, a) := x in
+                 list_eqb quad_eqb (vsplits st (anc_of ancs v)) b &&
+                 list_eqb quad_eqb (vsplits (vreplay lg) (anc_of ancs v)) a) obs in
+    check true || check false
   | CNext _ _ => true
   | CLogRT _ _ _ _ _ => true
   end.
@@ -127,6 +139,9 @@ Definition spec_class (c : c03case) : nat :=
     else 1%nat
   | CExtents before after => if Bool.eqb before after then 0%nat else 1%nat
   | CMapLog _ before after => if list_eqb quad_eqb before after then 0%nat else 3%nat
+  | CMapLogV _ _ obs =>
+    if forallb (fun x : N * list (N * N * N * N) * list (N * N * N * N) => let '(_, b, a) := x in list_eqb quad_eqb b a) obs
+    then 0%nat else 3%nat
   | CNext before after =>
     if before =? after then 0%nat else 1%nat
   | CLogRT w ra sa rs ss => if rs && ss && Nat.eqb w ra && Nat.eqb w sa then 0%nat else 3%nat
